@@ -56,15 +56,33 @@ static std::string g_fe, g_mode, g_path;
 static event::Loop *g_loop = nullptr; static Terminal *g_term = nullptr; static Telnetd *g_telnetd = nullptr; static TcpRpc *g_tcprpc = nullptr;
 static std::vector<Args> g_calls; static Worker g_worker; static long g_case_no = 0;
 
+// What the front end's framing layer hands to the shell (it sits between the service and the real Terminal):
+// the text stream, window-size events and option changes. This must not depend on how the bytes were segmented
+// ("telnet IAC framing waits for complete commands before consuming").
+struct Spy : TerminalInteract {
+  Terminal *t; std::vector<std::pair<char, std::string>> ev;
+  void text(const std::string &s) { if (!ev.empty() && ev.back().first == 'S') ev.back().second += s; else ev.push_back({'S', s}); }
+  std::string digest() const { std::string d; for (auto &e : ev) { d.push_back(e.first); d += "<" + esc(e.second) + ">"; } return d; }
+  SessionToken newSession(Connection *c) override { ev.clear(); return t->newSession(c); }
+  bool deleteSession(const SessionToken &st) override { return t->deleteSession(st); }
+  uint32_t getOptions(const SessionToken &st) const override { return t->getOptions(st); }
+  void setOptions(const SessionToken &st, uint32_t o) override { ev.push_back({'O', std::to_string(o)}); t->setOptions(st, o); }
+  bool onBegin(const SessionToken &st) override { return t->onBegin(st); }
+  bool onExit(const SessionToken &st) override { return t->onExit(st); }
+  bool onRecvString(const SessionToken &st, const std::string &s) override { text(s); return t->onRecvString(st, s); }
+  bool onRecvWindowSize(const SessionToken &st, uint16_t w, uint16_t h) override { ev.push_back({'W', std::to_string(w) + "x" + std::to_string(h)}); return t->onRecvWindowSize(st, w, h); }
+};
+static Spy g_spy;
+
 static void setup() {
-  g_loop = event::Loop::New(); g_term = new Terminal(g_loop);
+  g_loop = event::Loop::New(); g_term = new Terminal(g_loop); g_spy.t = g_term;
   g_term->impl_->session_ctx_pool_.keep_number_ = 0;
   auto probe = g_term->createFuncNode([](const Session &s, const Args &a) { g_calls.push_back(a); std::string r = "PROBE<"; for (size_t i = 1; i < a.size(); i++) r += a[i]; s.send(r + ">\r\n"); }, "probe");
   g_term->mountNode(g_term->rootNode(), probe, "p");
   g_path = "/tmp/c13-sock/" + g_fe + "-" + std::to_string(getpid()) + ".sock"; unlink(g_path.c_str());
   bool ok;
-  if (g_fe == "telnetd") { g_telnetd = new Telnetd(g_loop, g_term); ok = g_telnetd->initialize(g_path) && g_telnetd->start(); }
-  else { g_tcprpc = new TcpRpc(g_loop, g_term); ok = g_tcprpc->initialize(g_path) && g_tcprpc->start(); }
+  if (g_fe == "telnetd") { g_telnetd = new Telnetd(g_loop, &g_spy); ok = g_telnetd->initialize(g_path) && g_telnetd->start(); }
+  else { g_tcprpc = new TcpRpc(g_loop, &g_spy); ok = g_tcprpc->initialize(g_path) && g_tcprpc->start(); }
   if (!ok) { fprintf(stderr, "C13-HARNESS: cannot listen on %s\n", g_path.c_str()); _exit(0); }
 }
 static size_t n_sessions() { return g_telnetd ? g_telnetd->impl_->client_to_session_.size() : g_tcprpc->impl_->client_to_session_.size(); }
@@ -75,7 +93,7 @@ static std::string drain(int fd) { std::string o; char b[4096]; ssize_t k; while
 static const std::string RESYNC = std::string("\0\0", 2) + "\xff\xf0";   // closes any open IAC / IAC SB state (see check.py assumptions)
 
 // returns "" or "<signature> <details>"
-static std::string run_case(const Case &c) {
+static std::string run_case(const Case &c, std::string *digest = nullptr) {
   if (!g_loop) setup();
   g_case_no++;
   std::string shape = shape_of(g_fe, c), viol, pending, reply; bool direct = g_mode == "direct", gone = false;
@@ -120,34 +138,78 @@ static std::string run_case(const Case &c) {
     viol = shape + "-uncaught-exception what=" + e.what(); g_worker.poisoned = true;
   }
   if (fd >= 0) close(fd);
+  if (digest) *digest = g_spy.digest();
   return viol;
+}
+
+// all deliveries of one byte string: unsplit first (the reference), then every 2-way split; the framing layer's output
+// must be the same. Job: 'G' flags from_cut want_ref bytes...   Reply: "<cuts completed>\n" + "cut\tviolation\n"...
+static Case split_case(const std::string &b, size_t cut, int flags) { Case c; c.flags = flags; if (cut == 0) c.segs = {b}; else c.segs = {b.substr(0, cut), b.substr(cut)}; return c; }
+static std::string run_group(int flags, size_t from_cut, size_t upto_cut, bool want_ref, const std::string &b) {
+  std::string ref, out; bool have_ref = false; size_t done = 0;
+  auto one = [&](size_t cut, bool report) {
+    std::string d, v = run_case(split_case(b, cut, flags), &d);
+    if (v.empty() && cut == 0) { ref = d; have_ref = true; }
+    if (v.empty() && cut > 0 && have_ref && d != ref)
+      v = shape_of(g_fe, split_case(b, cut, flags)) + "-framing-depends-on-segmentation unsplit=" + ref.substr(0, 150) + " split=" + d.substr(0, 150);
+    if (report && !v.empty()) out += std::to_string(cut) + "\t" + v + "\n";
+  };
+  if (want_ref && from_cut > 0) one(0, false);
+  for (size_t cut = from_cut; cut < upto_cut && !g_worker.poisoned; cut++) { one(cut, true); done++; }
+  return std::to_string(done) + "\n" + out;
 }
 
 // ---- parent side: enumeration -----------------------------------------------------------------------------------
 struct Sweep {
-  std::string fe, mode; long shard = 0, nshards = 1, index = 0, evaluated = 0, inputs = 0, viols = 0, samples = 0; double deadline;
+  std::string fe, mode; long shard = 0, nshards = 1, index = 0, evaluated = 0, inputs = 0, viols = 0, samples = 0, fallbacks = 0; double deadline;
   std::map<std::string, int> sig_seen; std::map<std::string, long> outcomes; bool capped = false; size_t cur_len = 0;
   bool mine() { return (index++ % nshards) == shard; }
-  void eval(const Case &c) {
-    if (capped) return;
-    if ((evaluated & 255) == 0 && hx::now_s() > deadline) { capped = true; printf("@CAP fe:%s:%s shard %ld: deadline reached in family %s (byte strings of length %zu), %ld cases evaluated\n", fe.c_str(), mode.c_str(), shard, c.family.c_str(), cur_len, evaluated); return; }
-    evaluated++;
-    std::string res, crash, viol;
-    if (g_worker.call(ser(c), res, crash)) viol = res;
-    else {
-      std::string kind = crash.find("heap-use-after-free") != std::string::npos ? "use-after-free" : crash.find("buffer-overflow") != std::string::npos ? "overread" :
-                         crash.find("uncaught-exception") != std::string::npos ? "uncaught-exception" : crash.find("hang") == 0 ? "hang" : crash.find("ubsan-integer") != std::string::npos ? "undefined-behaviour" : "crash";
-      std::string sig = shape_of(fe, c) + "-" + kind; viol = sig + " " + crash;
-      if (sig_seen[sig] < 3) { std::string hex; char b[4]; for (unsigned char ch : ser(c)) { snprintf(b, sizeof b, "%02x", ch); hex += b; } viol += " :: " + exec_detail({"--one", fe, mode, hex}); }
-    }
-    if (viol.empty()) { outcomes[c.family + ": " + shape_of(fe, c) + ((c.flags & F_PROBE) ? " -> harmless, probe answered" : " -> harmless, session ended")]++; if (samples < 3 && c.segs.size() > 1) { samples++; printf("@SAMPLE fe:%s:%s %s %s => probe answered\n", fe.c_str(), mode.c_str(), c.family.c_str(), show(c).c_str()); } return; }
+  bool past_deadline(const std::string &family) {
+    if (capped) return true;
+    if (hx::now_s() > deadline) { capped = true; printf("@CAP fe:%s:%s shard %ld: deadline reached in family %s (byte strings of length %zu), %ld cases evaluated\n", fe.c_str(), mode.c_str(), shard, family.c_str(), cur_len, evaluated); }
+    return capped;
+  }
+  std::string crash_viol(const Case &c, const std::string &crash) {
+    std::string kind = crash.find("heap-use-after-free") != std::string::npos ? "use-after-free" : crash.find("buffer-overflow") != std::string::npos ? "overread" :
+                       crash.find("uncaught-exception") != std::string::npos ? "uncaught-exception" : crash.find("hang") == 0 ? "hang" : crash.find("ubsan-integer") != std::string::npos ? "undefined-behaviour" : "crash";
+    std::string sig = shape_of(fe, c) + "-" + kind, viol = sig + " " + crash;
+    if (sig_seen[sig] < 3) { std::string hex; char b[4]; for (unsigned char ch : ser(c)) { snprintf(b, sizeof b, "%02x", ch); hex += b; } viol += " :: " + exec_detail({"--one", fe, mode, hex}); }
+    return viol;
+  }
+  void report(const Case &c, const std::string &viol) {
     viols++; std::string sig = viol.substr(0, viol.find(' '));
     if (sig_seen[sig]++ < 3) printf("@VIOL sig=%s :: fe=%s mode=%s family=%s segs=%s  [%s]\n", sig.c_str(), fe.c_str(), mode.c_str(), c.family.c_str(), show(c).c_str(), viol.c_str());
   }
-  // every 2-way segmentation (and the unsplit delivery) of one byte string
+  void harmless(const Case &c) {
+    outcomes[c.family + ": " + shape_of(fe, c) + ((c.flags & F_PROBE) ? " -> harmless, probe answered" : " -> harmless, session ended")]++;
+    if (samples < 3 && c.segs.size() > 1) { samples++; printf("@SAMPLE fe:%s:%s %s %s => probe answered\n", fe.c_str(), mode.c_str(), c.family.c_str(), show(c).c_str()); }
+  }
+  // one explicit case
+  void eval(const Case &c) {
+    if (past_deadline(c.family)) return;
+    evaluated++;
+    std::string res, crash, viol;
+    if (g_worker.call("C" + ser(c), res, crash)) viol = res; else viol = crash_viol(c, crash);
+    if (viol.empty()) harmless(c); else report(c, viol);
+  }
+  // one byte string: unsplit + every 2-way segmentation, evaluated as one job; if the child dies the cuts are re-run one by one
   void splits(const std::string &b, const std::string &family, int flags = F_PROBE) {
     inputs++;
-    for (size_t cut = 0; cut < b.size(); cut++) { if (!mine()) continue; Case c; c.family = family; c.flags = flags; if (cut == 0) c.segs = {b}; else c.segs = {b.substr(0, cut), b.substr(cut)}; eval(c); }
+    if (!mine() || past_deadline(family)) return;
+    size_t n = b.size(), cut = 0; bool ref_ok = true, single = false;
+    auto mk = [&](size_t k) { Case c = split_case(b, k, flags); c.family = family; return c; };
+    while (cut < n) {
+      size_t upto = single ? cut + 1 : n;
+      std::string job = "G"; job.push_back((char)flags); job.push_back((char)cut); job.push_back((char)upto); job.push_back((char)((cut > 0 && ref_ok) ? 1 : 0)); job += b;
+      std::string res, crash;
+      if (g_worker.call(job, res, crash)) {
+        size_t nl = res.find('\n'); size_t done = (size_t)atol(res.c_str()); std::vector<bool> bad(n, false);
+        for (size_t p = nl + 1; p < res.size();) { size_t e = res.find('\n', p); std::string ln = res.substr(p, e - p); p = e + 1; size_t t = ln.find('\t'); size_t k = (size_t)atol(ln.c_str()); if (k < n) bad[k] = true; report(mk(k), ln.substr(t + 1)); }
+        for (size_t k = cut; k < cut + done && k < n; k++) if (!bad[k]) harmless(mk(k));
+        evaluated += (long)done; cut += done ? done : 1;
+      } else if (!single) { single = true; fallbacks++; }                       // some cut of this string kills the child: find out which
+      else { evaluated++; report(mk(cut), crash_viol(mk(cut), crash)); if (cut == 0) ref_ok = false; cut++; }
+    }
   }
 };
 
@@ -161,10 +223,12 @@ int main(int argc, char **argv) {
     std::string v = run_case(deser(raw)); fprintf(stderr, "viol=%s\n", v.c_str()); unlink(g_path.c_str()); return 0;
   }
   Sweep sw; sw.fe = g_fe = argc > 1 ? argv[1] : "telnetd"; sw.mode = g_mode = argc > 2 ? argv[2] : "sock"; size_t maxlen = argc > 3 ? atoi(argv[3]) : 3;
-  sw.shard = argc > 4 ? atol(argv[4]) : 0; sw.nshards = argc > 5 ? atol(argv[5]) : 1; sw.deadline = hx::deadline_from_env(600);
-  g_worker.recycle_after = 3000;
+  sw.shard = argc > 4 ? atol(argv[4]) : 0; sw.nshards = argc > 5 ? atol(argv[5]) : 1; sw.deadline = deadline(600);
+  g_worker.recycle_after = 800;
   g_worker.child_cleanup = [] { if (!g_path.empty()) unlink(g_path.c_str()); };
-  g_worker.fn = [](const std::string &job) { std::string r = run_case(deser(job)); return r; };
+  g_worker.fn = [](const std::string &job) {
+    if (job[0] == 'C') return run_case(deser(job.substr(1)));
+    return run_group((unsigned char)job[1], (unsigned char)job[2], (unsigned char)job[3], job[4] != 0, job.substr(5)); };
 
   // family "frames": well-formed frames, each prefix truncation, NAWS with a truncated payload, each in every 2-way split;
   // in sock mode additionally with the last segment filling the receive buffer exactly.
@@ -192,6 +256,6 @@ int main(int argc, char **argv) {
   }
   g_worker.stop();
   for (auto &o : sw.outcomes) printf("@OUTCOME %s %s\n", sw.fe.c_str(), o.first.c_str());
-  printf("@STAT states=%ld transitions=%ld executions=%ld violations=%ld worker_children=%ld\n", sw.shard == 0 ? sw.inputs : 0, sw.evaluated, sw.evaluated, sw.viols, g_worker.spawned);
+  printf("@STAT states=%ld transitions=%ld executions=%ld violations=%ld worker_children=%ld one_by_one_reruns=%ld\n", sw.shard == 0 ? sw.inputs : 0, sw.evaluated, sw.evaluated, sw.viols, g_worker.spawned, sw.fallbacks);
   return 0;
 }
